@@ -254,6 +254,7 @@ struct EmitOpts {
     Bytes trailing;                                             // unused bytes after the signature count
     std::optional<uint64_t> count_override, index_size_override, header_len_override;
     bool bad_checksum = false;
+    std::optional<Bytes> stored_digest;                         // store this digest instead of the computed one (header NOT re-sealed)
 };
 
 // Build lead+preface+index+sigs from the fields of `h` (digests as given) and seal the header
@@ -285,6 +286,7 @@ static inline Bytes emit_header(const Header &h, const EmitOpts &o = EmitOpts())
     Bytes m = lead; m.insert(m.end(), rest.begin(), rest.end());
     Bytes dg = digest((int)h.hash_type, m);
     if (o.bad_checksum) dg[0] ^= 1;
+    if (o.stored_digest && o.stored_digest->size() == dg.size()) dg = *o.stored_digest;
     Bytes out = lead; if (h.detached) memcpy(out.data(), "\0ZHR1", 5);
     out.insert(out.end(), dg.begin(), dg.end());
     out.insert(out.end(), rest.begin(), rest.end());
